@@ -62,7 +62,8 @@ func (e *Engine) Prelude() string {
 (assert (= (blen bempty) 0))
 (assert (forall ((b Bytes)) (! (>= (blen b) 0) :pattern ((blen b)))))
 (assert (forall ((b Bytes)) (! (=> (= (blen b) 0) (= b bempty)) :pattern ((blen b)))))
-(assert (forall ((b Bytes) (i Int)) (! (and (<= 0 (bat b i)) (<= (bat b i) 255)) :pattern ((bat b i)))))
+; NOTE: no global "every bat is a byte" axiom: together with the view axiom below it would be inconsistent for arrays that hold
+; values outside 0..255. Byte ranges come from the type invariants of heap loads and from the axioms of the individual constructors.
 (assert (forall ((A (Array Int Int)) (o Int) (l Int)) (! (= (blen (view A o l)) (ite (>= l 0) l 0)) :pattern ((view A o l)))))
 (assert (forall ((A (Array Int Int)) (o Int) (l Int) (i Int)) (! (=> (and (<= 0 i) (< i l)) (= (bat (view A o l) i) (select A (+ o i)))) :pattern ((bat (view A o l) i)))))
 (assert (forall ((A (Array Int Int)) (o Int) (B Bytes) (i Int)) (! (= (select (wr A o B) i) (ite (and (<= o i) (< i (+ o (blen B)))) (bat B (- i o)) (select A i))) :pattern ((select (wr A o B) i)))))
@@ -146,7 +147,7 @@ func (e *Engine) Prelude() string {
 ; (IntDecConvertSigned; larger positive integers are an error), and none of the package's own pointer / struct types
 (define-fun dec_val_ok ((v Any)) Bool (or (= v A_nil) ((_ is A_int64) v) ((_ is A_string) v) ((_ is A_LJbyte) v) ((_ is A_LJany) v) ((_ is A_mapLanyJany) v) ((_ is A_bool) v) ((_ is A_float64) v) (and ((_ is A_other) v) (= (other_tid v) 900006))))
 ; encoder contract for a byte string item: well-formed, shortest head, content verbatim
-(assert (forall ((b Bytes)) (! (and (bstr_wf (enc (cv_bstr b))) (head_minimal (enc (cv_bstr b))) (= (bstr_content (enc (cv_bstr b))) b)) :pattern ((enc (cv_bstr b))))))
+(assert (forall ((b Bytes)) (! (=> (< (blen b) 18446744073709551616) (and (bstr_wf (enc (cv_bstr b))) (head_minimal (enc (cv_bstr b))) (= (bstr_content (enc (cv_bstr b))) b))) :pattern ((enc (cv_bstr b))))))
 ; ---- errors ----
 (declare-fun wraps (Any) Any)
 (assert (= (wraps A_nil) A_nil))
